@@ -98,6 +98,10 @@ pub struct Push {
     pub reader: Reader,
     /// drop the pushed-response handle without sending anything
     pub abandon: bool,
+    /// scheduler yields between push_request and the pushed response (0 = in the same turn, before the PUSH_PROMISE
+    /// can have been written)
+    #[serde(default)]
+    pub resp_delay: usize,
 }
 
 #[derive(Clone, Debug, Serialize, Deserialize)]
@@ -353,7 +357,7 @@ pub fn gen_pair(tapes: &[Vec<u32>], focus: Focus) -> PairCase {
         let multi_ok = nreq == 1 || (focus == Focus::Resets && t.chance(1, 2));
         let npush = if push_ok && multi_ok && t.chance(1, 3) { 1 + t.below(3) } else { 0 };
         let pushes = (0..npush)
-            .map(|_| Push { resp: gen_msg(&mut t, focus, false), status: 200, reader: gen_reader(&mut t, focus), abandon: focus != Focus::Coop && t.chance(1, 6) })
+            .map(|_| Push { resp: gen_msg(&mut t, focus, false), status: 200, reader: gen_reader(&mut t, focus), abandon: focus != Focus::Coop && t.chance(1, 6), resp_delay: if t.chance(1, 3) { 1 + t.below(40) } else { 0 } })
             .collect();
         reqs.push(Req {
             id: i as u32 + 1,
@@ -420,7 +424,7 @@ pub fn gen_pair(tapes: &[Vec<u32>], focus: Focus) -> PairCase {
             }
         }
     }
-    if ccfg.max_concurrent == Some(1) && reqs.iter().any(|r| r.pushes.len() > 1) {
+    if focus != Focus::Resets && ccfg.max_concurrent == Some(1) && reqs.iter().any(|r| r.pushes.len() > 1) {
         ccfg.max_concurrent = None; // pushed streams over the limit are refused (legitimately): not a cooperative exchange
     }
     let mut ops = Vec::new();
@@ -1449,6 +1453,23 @@ fn do_pushes(respond: &mut server::SendResponse<SegBuf>, r: &Req, key: u32, ctx:
                 let mut f = vec![(":status".to_string(), p.status.to_string())];
                 f.extend(fields_of(resp.headers()));
                 let eos = head_eos(&p.resp);
+                if p.resp_delay > 0 {
+                    // the pushed response starts later, when the PUSH_PROMISE has (probably) been written already
+                    let (log, sp, msg, delay) = (log.clone(), ctx.sp.clone(), p.resp.clone(), p.resp_delay);
+                    ctx.sp.spawn(format!("s-pushresp-{}", pkey), Group::ServerApp, async move {
+                        yield_n(delay).await;
+                        match pushed.send_response(resp, eos) {
+                            Ok(st) => {
+                                log.push(Side::Server, pkey, Api::SentHead { kind: "response", stream: psid, fields: f, eos });
+                                if !eos {
+                                    send_body(st, msg, pkey, Side::Server, log.clone(), sp).await;
+                                }
+                            }
+                            Err(e) => log.push(Side::Server, pkey, Api::SendErr { op: "send_response(pushed)", err: err_info(&e) }),
+                        }
+                    });
+                    continue;
+                }
                 match pushed.send_response(resp, eos) {
                     Ok(st) => {
                         log.push(Side::Server, pkey, Api::SentHead { kind: "response", stream: psid, fields: f, eos });
